@@ -83,13 +83,16 @@ def run(ck: Check):
         with torch.no_grad():
             ys = d(torch.tensor(corners, dtype=torch.float32)).T
         for i, (w, pat, e) in enumerate(vs):
-            if e < -10:
-                continue     # sigmoid(x/tau) rounds to exactly 0.5 in binary32 for |x| << tau: outside the exact regime
             got = [float(v > 0.5) for v in ys[i]]
             exp = [1.0 if p > 0 else 0.0 for p in pat]
             if got != exp:
+                # binary32: the logistic of a non-zero argument below 2^-24 in magnitude rounds to exactly 0.5 (finding F19b); any
+                # other disagreement is a violation
+                tiny = all(gv == ev or (float(ys[i][ci]) == 0.5 and abs(float(Fraction(2) ** e) / tau) < 2.0 ** -22)
+                           for ci, (gv, ev) in enumerate(zip(got, exp)))
                 ck.disagree("soft Walsh output thresholded at 1/2 differs from the eval output",
-                            {"w": [str(x) for x in w], "tau": tau}, expected=exp, observed=got, signature={"layer": "dense", "what": "soft"})
+                            {"w": [str(x) for x in w], "tau": tau}, expected=exp, observed=got,
+                            signature={"layer": "dense", "what": "soft", "float_resolution": bool(tiny)})
         ck.count("soft_threshold_checks", len(vs))
         # ... and numerically the logistic of form / CURRENT temperature (binary32 evaluation: 1e-5 absolute)
         worst = 0.0
@@ -107,6 +110,37 @@ def run(ck: Check):
                                 signature={"layer": "dense", "what": "soft-value"})
                     break
         ck.count("soft_value_checks", len(vs))
+    # replay of the recorded finding F19b: form/temperature so small that the binary32 logistic is exactly one half
+    r = LogicDense(2, 1, device="cpu", parametrization="walsh", weight_init="random")
+    r.indices = (torch.zeros(1, dtype=torch.int64), torch.ones(1, dtype=torch.int64))
+    with torch.no_grad():
+        r.weight.copy_(torch.tensor([[1e-8, 0.0, 0.0, 0.0]]))
+    r.train()
+    r.temperature = 1.0
+    with torch.no_grad():
+        ysr = r(torch.tensor(corners, dtype=torch.float32)).reshape(-1).tolist()
+    r.eval()
+    with torch.no_grad():
+        yer = r(torch.tensor(corners, dtype=torch.float32)).reshape(-1).tolist()
+    ck.case({"w": [1e-8, 0, 0, 0], "tau": 1.0, "finding": "F19b"}, kind="known-finding-replay")
+    if [float(v > 0.5) for v in ysr] != yer:
+        ck.disagree("soft Walsh output thresholded at 1/2 differs from the eval output", {"w": [1e-8, 0, 0, 0], "tau": 1.0, "soft": ysr},
+                    expected=yer, observed=[float(v > 0.5) for v in ysr],
+                    signature={"layer": "dense", "what": "soft", "float_resolution": all(v == 0.5 for v in ysr)})
+    # hard sampling thresholds the form itself: equal to eval at every magnitude and temperature (F19)
+    d.forward_sampling = "hard"
+    for tau in (1.0, 1e8, 1e-3):
+        d.temperature = tau
+        with torch.no_grad():
+            yh = d(torch.tensor(corners, dtype=torch.float32)).T
+        for i, (w, pat, e) in enumerate(vs):
+            exp = [1.0 if p > 0 else 0.0 for p in pat]
+            if [float(v) for v in yh[i]] != exp:
+                ck.disagree("hard Walsh training output differs from the eval output", {"w": [str(x) for x in w], "tau": tau},
+                            expected=exp, observed=[float(v) for v in yh[i]], signature={"layer": "dense", "what": "hard-vs-eval"})
+                break
+        ck.count("hard_vs_eval_checks", len(vs))
+    d.forward_sampling = "soft"
     # compiled dense: groups of one neuron -> count = output bit
     for W in ((8, 64) if ck.tier == "quick" else (8, 16, 32, 64)):
         m = torch.nn.Sequential(d, GroupSum(n, device="cpu"))
@@ -194,6 +228,39 @@ def run(ck: Check):
                 continue
             break
         ck.count("soft_value_checks", K)
+    # ---- half-precision parameters (F20): the compiler, the eval forward and a float32 copy of the same stored coefficients agree
+    for dt in (torch.bfloat16, torch.float16):
+        torch.manual_seed(ck.seed + 11)
+        convh = LogicConv2d(in_dim=(2, 2), device="cpu", channels=1, num_kernels=24, tree_depth=1, receptive_field_size=2,
+                            parametrization="walsh", weight_init="random")
+        with torch.no_grad():
+            # cancellation-prone coefficients: w2 ~ -w0, |w1| small
+            for level in convh.tree_weights:
+                for w in level:
+                    base = torch.randn(w.shape[0]) * 8
+                    w.copy_(torch.stack([base, torch.randn(w.shape[0]) * 0.03, -base, torch.randn(w.shape[0]) * 0.01], dim=1))
+            convh.tree_weights[0][0][0] = torch.tensor([1.0, 2.0 ** -8, -1.0, 0.0])
+            convh.tree_weights[0][0][1] = torch.tensor([2048.0, 1.0, -2048.0, 0.0])
+        convh = convh.to(dt)
+        convh.eval()
+        mh = torch.nn.Sequential(convh, torch.nn.Flatten(), GroupSum(24, device="cpu"))
+        xs = torch.tensor(nets.all_rows(4), dtype=torch.float32).reshape(16, 1, 2, 2)
+        ck.case({"layer": "conv", "dtype": str(dt), "half_precision": True}, nontrivial=True, kind="half-precision")
+        try:
+            with torch.no_grad():
+                yeh = mh(xs.to(dt)).float().round().int().tolist()
+            neth = compiled.build(mh, 16)
+            compiled.compile_net(neth)
+            ych = [[int(v) for v in r] for r in compiled.forward(neth, xs.bool().tolist())]
+        except Exception as e:
+            ck.count("half_precision_rejected")
+            continue
+        ck.count("half_precision_checks")
+        if ych != yeh:
+            bad = next(i for i in range(16) if ych[i] != yeh[i])
+            ck.disagree("a half-precision Walsh convolution compiles to a different function than its eval forward",
+                        {"dtype": str(dt), "row": nets.all_rows(4)[bad]}, expected=yeh[bad], observed=ych[bad],
+                        signature={"layer": "conv", "what": "compiled-half"})
     # ---- parameter-update protocols (reported id / eval / compiled follow the CURRENT coefficients)
     protocols.dense_protocol(ck, "walsh", "")
     protocols.conv_protocol(ck, "walsh", "")
